@@ -24,7 +24,17 @@ def has_single_col_empty_row(e):
     return False
 
 
+def decoded_dt_sub_minute(e):
+    for key in ("from_str", "parser", "from_slice"):
+        b = e.get(key, {}).get("back") if isinstance(e.get(key), dict) else None
+        for v in walk(b):
+            if v.get("k") == "dt" and v.get("off", 0) % 60 != 0:
+                return True
+    return False
+
+
 PREDICATES = {
+    "decoded_dt_with_sub_minute_offset": decoded_dt_sub_minute,
     "single_col_grid_with_empty_row": has_single_col_empty_row,
     "any": lambda e: True,
 }
